@@ -251,8 +251,9 @@ def gen_sim(rng, algo=None, gen='G-sim', small=True):
                 if s['memory_gb'] > 2 * ram:
                     s['memory_gb'] = float(ram)
             ops.append([s] if rng.random() < 0.8 else
-                       [s, dict(baseline_cpu_seconds=float(rng.choice([1, 2, 3])) / tps, cpu_scaling='const',
-                                storage_read_gb=0.0, memory_gb=float(rng.choice([0, 0.25, 0.5, 1])))])
+                       [s, dict(baseline_cpu_seconds=float(rng.choice([0, 0.4, 1, 2, 3])) / tps,
+                                cpu_scaling=rng.choice(['const', 'squared']), storage_read_gb=0.0,
+                                memory_gb=float(rng.choice([0, 0.25, 0.5, 1])))])
         segs.append(ops)
         t = rng.choice([0, 0, 0, 1, 2, 5, 10, 30, 60]) if rng.random() < 0.7 else rng.randrange(0, max(1, nticks))
         arrivals.append((t, k))
@@ -406,5 +407,41 @@ def gen_branches(rng, algo, gen='G-sim-branches'):
         segs.append([op(rng.randint(1, 4)) for _ in range(n)])
         arrivals.append((rng.randint(1, nticks // 3), len(pipes) - 1))
     arrivals.sort(key=lambda a: a[0])
+    return dict(gen=gen, algo=algo, tps=tps, over=1 if algo == 'overbook' else 0, multi=0, npools=npools, cpu=cpu,
+                ram=ram, duration=nticks / tps, pipes=pipes, segs=segs, arrivals=arrivals)
+
+
+def gen_failready(rng, algo, gen='G-sim-failready'):
+    """single-operator containers; pipelines A -> {B, C}, C -> D where B is killed (own limit) in the very tick in
+    which its sibling C completes: a FAILED operator to retry and a PENDING operator that just became ready appear
+    together; few CPUs, several such pipelines, so the order in which they are picked up matters"""
+    tps = rng.choice([1, 2, 10])
+    npools = 2 if algo == 'priority-pool' else rng.choice([1, 1, 2])
+    cpu = rng.choice([2, 3, 4])
+    ram = rng.choice([20, 40, 100])
+    nticks = rng.choice([60, 100])
+    pipes, segs, arrivals = [], [], []
+
+    def seg(t, m):
+        return dict(baseline_cpu_seconds=float(t) / tps, cpu_scaling='const', storage_read_gb=0.0, memory_gb=float(m))
+    for k in range(rng.randint(1, 3)):
+        t = rng.randint(1, 4)
+        small = rng.choice([0.25, 0.5, 1])
+        # priority hands out a tenth of the pool, overbook the whole pool: make B exceed either
+        big = ram * rng.choice([1.5, 2])
+        a = [seg(rng.randint(1, 2), small)]
+        b = [seg(t, small), seg(2, big)]            # dies in tick t + 1 of its life
+        c = [seg(t + 1, small)]                     # completes in tick t + 1 of its life
+        d = [seg(rng.randint(1, 3), small)]
+        order = rng.choice([[a, b, c, d], [a, c, b, d]])
+        dag = [[], [0], [0], [2 if order[2] is c else 1]] if True else None
+        pipes.append((rng.choice([1, 2, 3]), dag))
+        segs.append(order)
+        arrivals.append((rng.choice([0, 0, 1]), len(pipes) - 1))
+    for k in range(rng.randint(0, 3)):
+        pipes.append((rng.choice([2, 3]), [[]]))
+        segs.append([[seg(rng.randint(2, 8), 0.5)]])
+        arrivals.append((rng.randint(0, 6), len(pipes) - 1))
+    arrivals.sort(key=lambda x: x[0])
     return dict(gen=gen, algo=algo, tps=tps, over=1 if algo == 'overbook' else 0, multi=0, npools=npools, cpu=cpu,
                 ram=ram, duration=nticks / tps, pipes=pipes, segs=segs, arrivals=arrivals)
